@@ -55,12 +55,26 @@ def _dim_only(cond):
         return False
 
 
+# documented defaults of the structural flags (class docstrings "Default: False" / "Default: `False`"; the conservative
+# Kuramoto-Sivashinsky stepper documents `conservative` "Default: True"): which FORM of the equation a stepper built
+# without options solves -- C09 (conservation form), C01 (symbol with / without spatial mixing), C13 (equivalences)
+_CONV_FLAGS = {"single_channel": False, "conservative": False}
+FLAG_DEFAULTS = {
+    "Dispersion": {"advect_on_diffusion": False}, "HyperDiffusion": {"diffuse_on_diffuse": False},
+    "Burgers": _CONV_FLAGS, "GeneralConvectionStepper": _CONV_FLAGS, "NormalizedConvectionStepper": _CONV_FLAGS,
+    "DifficultyConvectionStepper": _CONV_FLAGS,
+    "KortewegDeVries": dict(_CONV_FLAGS, advect_over_diffuse=False, diffuse_over_diffuse=False),
+    "KuramotoSivashinskyConservative": {"single_channel": False, "conservative": True},
+}
+
+
 def documented_defaults(cls):
     d = dict(DOC_DEFAULTS)
     if cls.__name__ in CUBIC_BY_DEFAULT:
         d["dealiasing_fraction"] = Fraction(1, 2)
     if cls.__name__ == "BelousovZhabotinsky":
         d.pop("dealiasing_fraction")   # (its docstring states no default fraction and C03 does not list it)
+    d.update(FLAG_DEFAULTS.get(cls.__name__, {}))
     return d
 
 
@@ -205,18 +219,21 @@ def register(q, cls, *, params, sigma, channels=lambda p: 1, nonlin=nl_zero, lin
                     return (D, sym.pos_real(e, "L"), N, sym.real(e, "dt")), kw
                 lab = f"D={D}" + "".join(f",{k}={val}" for k, val in v.items() if k not in ("kw",)) + (f",order={o}" if o is not None else "")
                 cases.append(Case(lab, build))
-    if not linear and any(n in sig.parameters for n in DOC_DEFAULTS):
+    pinned = {n for n in documented_defaults(cls) if n in sig.parameters}
+    if pinned:
         # the options the properties rely on at their DOCUMENTED default (C03: 2/3 rule for quadratic, 1/2 for cubic
-        # terms; C02: 16 contour points on the unit circle): constructed without passing them
-        D0 = next((D for D in dims if not any(cond({"num_spatial_dims": D}) is True for _, cond in raises if _dim_only(cond))), dims[0])
+        # terms; C02: 16 contour points on the unit circle; C09/C01/C13: the structural flags): constructed WITHOUT
+        # passing them, compared with the spec at the documented values
+        D0 = next((D for D in reversed(dims) if not any(cond({"num_spatial_dims": D}) is True for _, cond in raises if _dim_only(cond))), dims[0])
+        D0 = 2 if (D0 == 3 and 2 in dims and not any(cond({"num_spatial_dims": 2}) is True for _, cond in raises if _dim_only(cond))) else D0
 
         def build_defaults(e, D=D0, v=variants[0]):
             N = sym.integer(e, "N", lo=1)
-            kw = {k: val for k, val in dict(params(e, D, v), **v.get("kw", {})).items() if k not in DOC_DEFAULTS}
+            kw = {k: val for k, val in dict(params(e, D, v), **v.get("kw", {})).items() if k not in pinned}
             if normalized:
                 return (), dict(num_spatial_dims=D, num_points=N, **kw)
             return (D, sym.pos_real(e, "L"), N, sym.real(e, "dt")), kw
-        cases.append(Case(f"D={D0},documented defaults (dealiasing fraction, contour)", build_defaults))
+        cases.append(Case(f"D={D0},documented defaults ({', '.join(sorted(pinned))})", build_defaults))
 
     def spec(*a, **k):
         ba = sig.bind(*a, **k)
